@@ -81,6 +81,11 @@ Definition file_lines (c : text) : list text :=
 (* reverse_iter_lines: last line first *)
 Definition reverse_lines_spec (c : text) : list text := rev (file_lines c).
 
+(* which decoding reverse_iter_lines applies (None = none, bytes come back): the encoding the caller names
+   wins, else the file's own *)
+Definition caller_wins {A} (arg own : option A) : option A :=
+  match arg with Some a => Some a | None => own end.
+
 (* domain of the reverse reader's clause: line breaks are \n or \r\n only *)
 Fixpoint no_lone_cr (c : text) : bool :=
   match c with
